@@ -337,7 +337,9 @@ def shard(ctx, col):
 
 def core_strategy():
     from hypothesis import strategies as st
-    return st.randoms(use_true_random=False)
+    # one drawn seed per case (see common.strategy): also immune to FlakyStrategyDefinition,
+    # which per-call draws raised when a case counter influenced how many draws happen
+    return st.randoms(use_true_random=True)
 
 
 def check_case(case):
